@@ -996,6 +996,9 @@ func runPath(t vcore.Failer, c rulepath.Case) {
 	v, st := rulepath.Run(c, map[string]bool{"PDR": true, "FAR": true})
 	vcore.E.Eval()
 	vcore.E.Class("through_pfcp_layer")
+	if st.Rejected {
+		vcore.E.Exclude("message_with_a_duplicate_create_rejected_as_a_whole")
+	}
 	if st.SameNumber {
 		vcore.E.Class("through_pfcp_layer:equal_ids_across_kinds")
 		vcore.E.NonTrivial(vcore.JSON(c))
